@@ -25,8 +25,50 @@ const (
 	c18Hang
 )
 
-// c18Guard runs f under a watchdog and a recover.
-func c18Guard(f func()) int {
+// c18Guard runs f under a 2 s watchdog and a recover.
+func c18Guard(f func()) int { return c18GuardT(2*time.Second, f) }
+
+// c18RunTimeout is the watchdog of a run op (pushrun / readrun) of n packets.
+func c18RunTimeout(op string) time.Duration {
+	if strings.HasPrefix(op, "pushrun") || strings.HasPrefix(op, "readrun") {
+		return 50 * time.Second
+	}
+	return 2 * time.Second
+}
+
+// c18RunSeq is the i-th sequence number of a run (step -1, 0 or 1).
+func c18RunSeq(from, step, i int) int {
+	switch step {
+	case -1:
+		return (from + (65536 - i%65536)) & 0xFFFF
+	case 0:
+		return from & 0xFFFF
+	}
+	return (from + i) & 0xFFFF
+}
+
+// c18RunArgs parses `from= n= step= ts= obj=`.
+func c18RunArgs(op string) (from, n, step, ts, obj int, ok bool) {
+	_, m := kv(op)
+	var ok1, ok2, ok4, ok5 bool
+	from, ok1 = c18KV(m, "from", 65536)
+	n, ok2 = c18KV(m, "n", 200001)
+	ts, ok4 = c18KV(m, "ts", 1<<32)
+	obj, ok5 = c18KV(m, "obj", 1<<31)
+	switch m["step"] {
+	case "-1":
+		step = -1
+	case "0":
+		step = 0
+	case "1":
+		step = 1
+	default:
+		return 0, 0, 0, 0, 0, false
+	}
+	return from, n, step, ts, obj, ok1 && ok2 && ok4 && ok5
+}
+
+func c18GuardT(limit time.Duration, f func()) int {
 	done := make(chan int, 1)
 	go func() {
 		st := c18OK
@@ -41,7 +83,7 @@ func c18Guard(f func()) int {
 	select {
 	case st := <-done:
 		return st
-	case <-time.After(2 * time.Second):
+	case <-time.After(limit):
 		return c18Hang
 	}
 }
@@ -138,6 +180,22 @@ func c18Chain(q *jitterbuffer.PriorityQueue, s *c18Objs, limit int) string {
 	if len(prios) == 0 {
 		return fmt.Sprintf("q len=%d chain=-", q.Length())
 	}
+	if len(prios) > 40 {
+		// long chains are printed as a digest: #<count>/<hash over (priority, object id + 1 | 0 for nil)>
+		var h uint64
+		for i := range prios {
+			var ov uint64
+			if vals[i] != nil {
+				if id, ok := s.ids[vals[i]]; ok {
+					ov = uint64(id) + 1
+				} else {
+					ov = 4294967290
+				}
+			}
+			h = (h*31 + uint64(prios[i])*7 + ov) % 4294967291
+		}
+		return fmt.Sprintf("q len=%d chain=#%d/%d", q.Length(), len(prios), h)
+	}
 	parts := make([]string, len(prios))
 	for i := range prios {
 		if vals[i] == nil {
@@ -157,7 +215,7 @@ func runPQueue(_ *testing.T, ops []string, o *Out) {
 	pushes := 0
 	for _, op := range ops {
 		var lines []string
-		st := c18Guard(func() {
+		st := c18GuardT(c18RunTimeout(op), func() {
 			f := strings.Fields(op)
 			bad := []string{"bad-op"}
 			lines = bad
@@ -173,6 +231,17 @@ func runPQueue(_ *testing.T, ops []string, o *Out) {
 				}
 				pushes++
 				q.Push(s.mk(seq, ts, obj), uint16(prio))
+				lines = []string{"ok"}
+			case f[0] == "pushrun":
+				from, n, step, ts, obj, ok := c18RunArgs(op)
+				if !ok {
+					return
+				}
+				for i := 0; i < n; i++ {
+					sq := c18RunSeq(from, step, i)
+					pushes++
+					q.Push(s.mk(sq, ts, obj+i), uint16(sq))
+				}
 				lines = []string{"ok"}
 			case op == "pop":
 				lines = []string{s.ret(q.Pop())}
@@ -270,7 +339,7 @@ func runJBuf(_ *testing.T, ops []string, o *Out) {
 	s := &c18Objs{ids: map[*rtp.Packet]int{}}
 	for _, op := range ops {
 		var lines []string
-		st := c18Guard(func() {
+		st := c18GuardT(c18RunTimeout(op), func() {
 			f := strings.Fields(op)
 			lines = []string{"bad-op"}
 			res := ""
@@ -301,6 +370,22 @@ func runJBuf(_ *testing.T, ops []string, o *Out) {
 				}
 				jb.Push(s.mk(seq, ts, obj))
 				res = "ok"
+			case f[0] == "pushrun":
+				from, n, step, ts, obj, ok := c18RunArgs(op)
+				if !ok {
+					return
+				}
+				for i := 0; i < n; i++ {
+					jb.Push(s.mk(c18RunSeq(from, step, i), ts, obj+i))
+				}
+				cnt := map[string]int{}
+				for _, e := range ev.evs {
+					cnt[e]++
+				}
+				ev.evs = nil
+				lines = []string{fmt.Sprintf("ok start=%d overflow=%d playing=%d underflow=%d",
+					cnt["start"], cnt["overflow"], cnt["playing"], cnt["underflow"]), c18State(jb)}
+				return
 			case op == "pop":
 				res = s.ret(jb.Pop())
 			case f[0] == "popseq" && len(f) == 2:
@@ -383,7 +468,7 @@ func runJBufInt(t *testing.T, ops []string, o *Out) {
 	reader := ri.BindRemoteStream(&interceptor.StreamInfo{SSRC: 1}, upstream)
 	for _, op := range ops {
 		var lines []string
-		st := c18Guard(func() {
+		st := c18GuardT(c18RunTimeout(op), func() {
 			f := strings.Fields(op)
 			lines = []string{"bad-op"}
 			switch {
@@ -438,6 +523,33 @@ func runJBufInt(t *testing.T, ops []string, o *Out) {
 					}
 				}
 				lines = []string{fmt.Sprintf("n=%d err=%s pkt=%s", nn, c18Err(err), pk)}
+			case f[0] == "readrun":
+				from, n, step, ts, obj, ok := c18RunArgs(op)
+				_, m := kv(op)
+				size, ok2 := c18KV(m, "size", 65537)
+				blen, ok3 := c18KV(m, "blen", 65537)
+				if !(ok && ok2 && ok3) || size < 16 || size > blen {
+					return
+				}
+				delivered, bytes := 0, 0
+				b := make([]byte, blen)
+				for i := 0; i < n; i++ {
+					full := make([]byte, size)
+					full[0] = 0x80
+					full[1] = 96
+					binary.BigEndian.PutUint16(full[2:], uint16(c18RunSeq(from, step, i)))
+					binary.BigEndian.PutUint32(full[4:], uint32(ts))
+					binary.BigEndian.PutUint32(full[8:], 1)
+					binary.BigEndian.PutUint32(full[12:], uint32(obj+i))
+					cur = full
+					curErr = nil
+					nn, _, err := reader.Read(b, interceptor.Attributes{})
+					if err == nil {
+						delivered++
+					}
+					bytes += nn
+				}
+				lines = []string{fmt.Sprintf("ok delivered=%d bytes=%d", delivered, bytes)}
 			case op == "unbind":
 				ri.UnbindRemoteStream(&interceptor.StreamInfo{SSRC: 1})
 				lines = []string{"ok ev=-"}
@@ -539,7 +651,96 @@ func c18Base(r *Rng, wrap bool) int {
 
 var c18PQClasses = []string{"inorder", "reverse", "shuffle", "dup-head", "dup-mid", "dup-tail", "wrap", "clear-traffic", "ts", "prio-mismatch", "small"}
 
+// c18FullSizes: number of packets buffered without popping in the class `fullcycle`: around one
+// and at two full sequence-number cycles, where the uint16 `length` of the queue wraps to 0.
+var c18FullSizes = []int{65536, 65535, 65537, 131072}
+
+// c18FullRuns pushes n packets so that every insert goes to the list front (cheap): descending
+// from 65535, then duplicates of 0.
+func c18FullRuns(n int, kind string) []string {
+	first := n
+	if first > 65536 {
+		first = 65536
+	}
+	ops := []string{fmt.Sprintf("%s from=65535 n=%d step=-1 ts=7 obj=1", kind, first)}
+	if n > first {
+		ops = append(ops, fmt.Sprintf("%s from=0 n=%d step=0 ts=8 obj=100001", kind, n-first))
+	}
+	return ops
+}
+
+func genPQFull(r *Rng, idx int) Case {
+	n := c18FullSizes[idx%len(c18FullSizes)]
+	ops := c18FullRuns(n, "pushrun")
+	ops = append(ops, "len", fmt.Sprintf("find %d", r.Pick(1234, 0, 65535)))
+	if r.Chance(1, 3) {
+		ops = append(ops, r.Pick2("pop", "popat 65535"), "len")
+	}
+	ops = append(ops, "clear", "len", fmt.Sprintf("find %d", r.Pick(1234, 0, 65535)), "popts 7", "pop",
+		fmt.Sprintf("popat %d", r.Pick(500, 0, 65535)))
+	ops = append(ops, "push seq=10 ts=9 obj=300001 prio=10", "push seq=9 ts=9 obj=300002 prio=9", "popat 10", "pop", "pop", "len")
+	return Case{Class: "fullcycle", Ops: ops}
+}
+
+func genJBFull(r *Rng, idx int) Case {
+	n := c18FullSizes[idx%len(c18FullSizes)]
+	reset := (idx / len(c18FullSizes)) % 2
+	ops := []string{fmt.Sprintf("new min=%d", r.Pick(50, 1, 0, 60, 65535))}
+	if r.Chance(1, 8) {
+		ops = []string{"new"}
+	}
+	ops = append(ops, c18FullRuns(n, "pushrun")...)
+	ops = append(ops, "head", fmt.Sprintf("peek %d", r.Intn(2)), "peekseq 1234")
+	if r.Chance(1, 3) {
+		ops = append(ops, "pop", "head")
+	}
+	ops = append(ops, fmt.Sprintf("clear %d", reset), "peekseq 1234", "peek 0", "peek 1", "pop", "popts 7", "popseq 2000")
+	// a new stream: 1000..1048 and 1050.. (1049 missing): nothing older may fill the gap
+	ops = append(ops, "pushrun from=1000 n=49 step=1 ts=9 obj=300001", "pushrun from=1050 n=12 step=1 ts=9 obj=300100")
+	if reset == 0 {
+		ops = append(ops, "sethead 1000")
+	}
+	for i := 0; i < 52; i++ {
+		ops = append(ops, "pop")
+	}
+	ops = append(ops, "popts 7", "peekseq 1049", "sethead 1049", "pop", "head")
+	return Case{Class: "fullcycle", Ops: ops}
+}
+
+func genIntFull(r *Rng, idx int) Case {
+	// the interceptor pops while it pushes (minimum 50): descending from 65535 the head moves to 0
+	// after the first pop and is not found again, so 65535 reads leave 65534 packets buffered; two
+	// duplicates of 1 make it 65536.  Every failing pop walks the whole list: quadratic, thorough tier only.
+	ops := []string{"readrun from=65535 n=65535 step=-1 ts=7 obj=1 size=16 blen=16"}
+	extra := []int{2, 1, 3}[idx%3]
+	ops = append(ops, fmt.Sprintf("readrun from=1 n=%d step=0 ts=8 obj=100001 size=16 blen=16", extra))
+	ops = append(ops, r.Pick2("unbind", "close"))
+	ops = append(ops, "readrun from=1000 n=49 step=1 ts=9 obj=300001 size=16 blen=1500")
+	for i := 0; i < 60; i++ {
+		ops = append(ops, fmt.Sprintf("read seq=%d ts=9 obj=%d n=16 blen=1500 uerr=0", 1050+i, 300100+i))
+	}
+	return Case{Class: "fullcycle", Ops: ops}
+}
+
+// number of `fullcycle` cases at the start of the case index range
+func c18NFull(comp, tier string) int {
+	switch comp {
+	case "pqueue":
+		return 4
+	case "jbuf":
+		return 8
+	}
+	if tier == "thorough" {
+		return 3
+	}
+	return 0
+}
+
 func genPQueue(r *Rng, tier string, idx int) Case {
+	if idx < c18NFull("pqueue", tier) {
+		return genPQFull(r, idx)
+	}
+	idx -= c18NFull("pqueue", tier)
 	if tier == "thorough" && idx < c18ExhN(2) {
 		return c18ExhPQ(idx)
 	}
@@ -711,6 +912,10 @@ func c18ExhJB(idx int) Case {
 var c18JBClasses = []string{"inorder", "reorder", "dup-head", "dup-mid", "dup-tail", "wrap", "sethead", "clear0", "clear1-rebind", "small", "ts", "mixed"}
 
 func genJBuf(r *Rng, tier string, idx int) Case {
+	if idx < c18NFull("jbuf", tier) {
+		return genJBFull(r, idx)
+	}
+	idx -= c18NFull("jbuf", tier)
 	if tier == "thorough" && idx < c18ExhN(3) {
 		return c18ExhJB(idx)
 	}
@@ -873,6 +1078,10 @@ func genJBuf(r *Rng, tier string, idx int) Case {
 var c18IntClasses = []string{"stream", "reorder", "sizes", "short", "uerr", "smallbuf", "rebind", "dup"}
 
 func genJBufInt(r *Rng, tier string, idx int) Case {
+	if idx < c18NFull("jbufint", tier) {
+		return genIntFull(r, idx)
+	}
+	idx -= c18NFull("jbufint", tier)
 	cl := c18IntClasses[idx%len(c18IntClasses)]
 	ops := []string{}
 	obj := 0
